@@ -244,6 +244,11 @@ impl Report {
         for (sig, (desc, n)) in &known_hit {
             println!("KNOWN-FINDING: property={} signature={} {} ({} occurrences kept)", self.id, sig, desc, n);
         }
+        for (k, v) in &self.acc.counters {
+            if k.starts_with("prerequisite") {
+                println!("NOTE: property={} {}={} — these cases could not be evaluated because a prerequisite owned by another property failed; they are not counted as violations of this property", self.id, k, v);
+            }
+        }
         let exhaustive = !Deadline::was_hit();
         let mut cov = std::mem::take(&mut self.cov);
         cov.insert("evaluations".into(), json!(self.acc.evaluations));
@@ -305,6 +310,7 @@ impl Report {
         if unknown.is_empty() {
             return 0;
         }
+        unknown.sort_by(|a, b| a.signature.cmp(&b.signature));
         let rdir = dir.join("replays").join(&self.id);
         let _ = std::fs::create_dir_all(&rdir);
         let mut seen = std::collections::BTreeSet::new();
